@@ -112,6 +112,7 @@ def e2e_cases(run):
     lines = [l for l in vlib.read_corpus("C09") if l.startswith("e2e ")]
     lines += gen_block.e2e_boundary(r, full=not quick)
     lines += gen_block.e2e_small_and_large(r, 12 if quick else 300)
+    lines += gen_block.e2e_all_lengths(r, 200 if quick else 4200, [0, 1, 2] if quick else gen_block.SZX)
     lines += gen_block.e2e_mtu(r)
     bodies = [("b1", 40, 0, 0, 1), ("b2", 40, 0, 0, 1), ("b1", 33, 0, 1, 1), ("b2", 48, 0, 1, 0)]
     lines += gen_block.e2e_sched_exhaustive(r, ".x2", 5 if quick else 8, bodies[:2])
